@@ -34,13 +34,16 @@ ASSUMPTIONS = [
     "float64 statistics, recursion compared at 1e-9 relative",
 ]
 
-FRACS = [0, 0.1, 0.25, 0.5, 0.9, 1, None]
+# fractions: whole percents and others (an eighth, a third, 0.995), exactly representable or not
+FRACS = [0, 0.1, 0.25, 0.5, 0.9, 1, None, 0.125, 0.625, 1.0 / 3.0, 0.995]
 POWERS = [-1, 0, 0.5, 0.5 + 2.0 ** -20, 0.6, 0.8, 1, 1 + 2.0 ** -20, 2, float("nan"), float("inf"), float("-inf")]
 
 
 def bounds(tier):
     return {"n_iter": "1..20" if tier == "quick" else "1..80", "fractions": FRACS, "powers": POWERS,
-            "counts": "None, 0, 1, n_iter-1, n_iter, n_iter+3", "real_models": "logistic, joint, linear: n_iter 4..8"}
+            "counts": "None, 0, 1, n_iter-1, n_iter, n_iter+3", "real_models": "logistic, joint, linear: n_iter 4..8",
+            "routes": "AlgorithmSettings(...) keywords | algo.load_parameters | options written into an existing settings object | one settings "
+                      "object reused for a second algorithm after n_iter was changed | annealing on"}
 
 
 def _val(v):
@@ -82,11 +85,29 @@ def make_algo(n_iter, frac, count, power, route="settings", annealing=False):
             settings = AlgorithmSettings("mcmc_saem", n_iter=n_iter, progress_bar=False, seed=0,
                                          n_burn_in_iter_frac=frac, n_burn_in_iter=count, burn_in_step_power=power, **kw)
             return algorithm_factory(settings)
+        if route == "set_after":
+            # the options are written into a settings object that already exists (settings.parameters is the documented
+            # place of the algorithm's parameters); the algorithm built from it must validate and resolve them all the same
+            settings = AlgorithmSettings("mcmc_saem", n_iter=n_iter + 2, progress_bar=False, seed=0, **kw)
+            settings.parameters.update({"n_iter": n_iter, "n_burn_in_iter_frac": frac, "n_burn_in_iter": count, "burn_in_step_power": power})
+            return algorithm_factory(settings)
+        if route == "settings_reused":
+            # one settings object serves two algorithms, the number of iterations being changed in between: the second
+            # algorithm resolves its memory-less phase from what the settings say now
+            settings = AlgorithmSettings("mcmc_saem", n_iter=2 * n_iter + 5, progress_bar=False, seed=0,
+                                         n_burn_in_iter_frac=frac, n_burn_in_iter=count, burn_in_step_power=power, **kw)
+            algorithm_factory(settings)
+            settings.parameters["n_iter"] = n_iter
+            return algorithm_factory(settings)
         settings = AlgorithmSettings("mcmc_saem", n_iter=n_iter, progress_bar=False, seed=0,
                                      n_burn_in_iter_frac=0.9 if frac is None else frac, burn_in_step_power=power, **kw)
         algo = algorithm_factory(settings)
         algo.load_parameters({"n_iter": n_iter, "n_burn_in_iter": count})
         return algo
+
+
+ROUTE_LABEL = {"settings": "", "load_parameters": ", through load_parameters", "set_after": ", options written into an existing settings object",
+               "settings_reused": ", settings object reused after n_iter was changed"}
 
 
 def reference_weights(n_iter, n_b, power):
@@ -121,7 +142,8 @@ def run_config(cfg):
     except Exception as e:
         return "refused-other", None, [(f"constructor|{type(e).__name__} instead of LeaspyAlgoInputError|", f"{e}")]
     if should_refuse_power:
-        problems.append(("constructor|step power outside (0.5, 1] accepted|" + ("power is NaN" if power != power else "power <= 0.5" if power <= 0.5 else "power > 1"), f"{cfg}"))
+        problems.append(("constructor|step power outside (0.5, 1] accepted|" + ("power is NaN" if power != power else "power <= 0.5" if power <= 0.5 else "power > 1")
+                         + ROUTE_LABEL[route], f"{cfg}"))
         return "accepted-bad-power", None, problems
     if should_refuse_burn:
         problems.append(("constructor|neither burn-in fraction nor count accepted|", f"{cfg}"))
@@ -130,7 +152,7 @@ def run_config(cfg):
     n_b = algo.algo_parameters["n_burn_in_iter"]
     if n_b != n_b_ref:
         problems.append(("constructor|length of the memory-less phase|" + ("count given" if count is not None else "from fraction")
-                         + (", annealing on" if annealing else "") + (", through load_parameters" if route != "settings" else ""),
+                         + (", annealing on" if annealing else "") + ROUTE_LABEL[route],
                          f"n_burn_in_iter={n_b} expected {n_b_ref} for {cfg}"))
         n_b_ref = n_b  # keep checking the recursion relative to what the algorithm holds
     probe = Probe(algo, n_iter + 1)
@@ -182,6 +204,16 @@ def configs(tier):
             for count in counts:
                 for frac in (None, 0.5):
                     yield {"n_iter": n_iter, "frac": frac, "count": count, "power": power}
+            # the same options written into an existing settings object (every power: the refusal must not depend on the route)
+            yield {"n_iter": n_iter, "frac": 0.5, "count": None, "power": power, "route": "set_after"}
+            if power in (0.8, 1):
+                for frac in FRACS:
+                    if frac is not None:
+                        yield {"n_iter": n_iter, "frac": frac, "count": None, "power": power, "route": "settings_reused"}
+                        if frac not in (0, 1):
+                            yield {"n_iter": n_iter, "frac": frac, "count": None, "power": power, "route": "set_after"}
+                yield {"n_iter": n_iter, "frac": None, "count": 1, "power": power, "route": "set_after"}
+                yield {"n_iter": n_iter, "frac": 0.5, "count": 1, "power": power, "route": "settings_reused"}
             if power in (0.8, 1) and n_iter >= 2:
                 # the same explicit counts given afterwards through load_parameters; and annealing switched on with a
                 # memory-less phase shorter than the annealing phase (default: 50% of the iterations)
